@@ -1856,6 +1856,16 @@ impl<'a, E: quiver_core::effects::Effect> Compiler<'a, E> {
                 // `a.x` reads the new `a`.
                 let path_prefix = format!("{}.", variable_name);
                 scope.bindings.retain(|key, _| !key.starts_with(&path_prefix));
+                // Narrowings are kept by name; the ones recorded for the previous holder of this
+                // name say nothing about the new value.
+                scope.narrowings.variables.remove(variable_name);
+                scope.narrowings.fields.retain(|(prov, _, _)| {
+                    let mut root = prov;
+                    while let Provenance::Field(parent, _) = root {
+                        root = parent;
+                    }
+                    !matches!(root, Provenance::Variable(name) if name == variable_name)
+                });
                 scope.bindings.insert(
                     variable_name.clone(),
                     Binding::Variable {
